@@ -28,8 +28,51 @@ def io_term(na, twopl):
     return ('dict', ((E('Instance_options', 'NUMAGENTS'), C(na)), (E('Instance_options', 'TWOPL'), C(twopl)), (E('Instance_options', 'PC'), S('PC'))))
 
 
+class Section:
+    """one loop over lines of the file: kind 'index' (for i, line in enumerate(f), sections told apart by tests on i) or
+    'slice' (for row in rows[a:b] with rows the token lists of all lines)"""
+    def __init__(self, loop, kind, lo, hi, start_term=None):
+        self.loop, self.kind, self.lo, self.hi, self.start_term = loop, kind, lo, hi, start_term
+        self.binder = loop.binder
+
+
+def is_open_file(t):
+    return t[0] == 'call' and show(t[1]) == 'open'
+
+
+def is_lines(t):
+    """the list of text lines of the opened file"""
+    if t[0] == 'call' and t[1][0] == 'attr' and t[1][2] == 'readlines' and is_open_file(t[1][1]) and not t[2]:
+        return True
+    if t[0] == 'call' and t[1] == S('list') and len(t[2]) == 1 and is_open_file(t[2][0]):
+        return True
+    if t[0] == 'call' and t[1][0] == 'attr' and t[1][2] == 'splitlines' and not t[2]:
+        r = t[1][1]
+        return r[0] == 'call' and r[1][0] == 'attr' and r[1][2] == 'read' and is_open_file(r[1][1])
+    if t[0] == 'comp' and len(t[1]) == 1 and t[1][0][1] == TRUE and t[2] == t[1][0][0] and is_open_file(t[1][0][0][3]):
+        return True
+    return False
+
+
+def tokens_of(t, line):
+    """t == line.replace(':', '' or ' ').split()"""
+    if t[0] == 'call' and t[1][0] == 'attr' and t[1][2] == 'split' and not t[2]:
+        b = t[1][1]
+        if b[0] == 'call' and b[1][0] == 'attr' and b[1][2] == 'replace' and b[1][1] == line and len(b[2]) == 2 and b[2][0] == C(':') and b[2][1] in (C(''), C(' ')):
+            return True
+    return False
+
+
+def is_rows(t):
+    """[line.replace(':', '').split() for line in LINES]"""
+    if t[0] == 'comp' and len(t[1]) == 1 and t[1][0][1] == TRUE:
+        b = t[1][0][0]
+        return (is_lines(b[3]) or is_open_file(b[3])) and tokens_of(t[2], b)
+    return False
+
+
 class Reader:
-    """Effect tree of _import_from_file under one (numagents, twopl) specialisation."""
+    """Effect tree of _import_from_file under one (numagents, twopl) specialisation, as a set of line sections."""
     def __init__(self, repo, na, twopl):
         self.repo, self.na, self.twopl = repo, na, twopl
         self.f = repo.function('_import_from_file', repo.rel('solver', 'fileIO.py'))
@@ -39,20 +82,85 @@ class Reader:
         except Unknown as u:
             raise AnalysisError('_import_from_file outside the interpreted fragment: %s' % u)
         self.it = it
-        loops = [e for e in self.effs if e.kind == 'for']
-        if len(loops) != 1:
-            raise AnalysisError('_import_from_file: expected one loop over the lines of the file, found %d' % len(loops))
-        self.loop = loops[0]
+        self.model = self.rv
+        self.sections = {}
+        self._find_sections()
+        if not self.sections:
+            raise AnalysisError('_import_from_file: expected one loop over the lines of the file, found 0')
+        kinds = {s.kind for s in self.sections.values()}
+        if len(kinds) != 1 or (kinds == {'index'} and len(self.sections) != 1):
+            raise AnalysisError('_import_from_file: expected one loop over the lines of the file, found %d' % len(self.sections))
+        self.kind = kinds.pop()
+        if self.kind == 'index':
+            self._resolve_header_variables()
+        self.loop = next(iter(self.sections.values())).loop          # the only loop of an index reader (messages, legacy users)
         self.line = self.loop.binder
         self.idx = ('indexof', self.line)
-        if not (self.line[3][0] == 'call' and show(self.line[3][1]) == 'open'):
-            raise AnalysisError('_import_from_file does not iterate over the opened file with enumerate')
-        self.model = self.rv
+        self._events = None
+
+    # -- sections -------------------------------------------------------------------------------------------
+    def _find_sections(self):
+        self.sections = {}
+        for e, ctx in iter_effects(self.effs):
+            if e.kind != 'for' or any(c.kind in ('for', 'while') for c, _ in ctx):
+                continue
+            dom = e.binder[3]
+            if is_open_file(dom) or is_lines(dom):
+                self.sections[e.binder] = Section(e, 'index', pconst(0), None)
+            elif dom[0] == 'slice' and is_rows(dom[1]):
+                self.sections[e.binder] = Section(e, 'slice', dom[2], dom[3])
+
+    def _resolve_header_variables(self):
+        """a local computed on the header line (index 0) and read on later lines is loop-carried: on lines >= 1 it holds
+        the value assigned on line 0"""
+        sec = next(iter(self.sections.values()))
+        loop = sec.loop
+        idx = ('indexof', loop.binder)
+        sites = {}
+        for e, ctx in iter_effects(loop.body):
+            if e.kind == 'acc' and e.op == 'assign':
+                sites.setdefault(e.var, []).append((e, ctx))
+        vals = {}
+        for var, ss in sites.items():
+            if len(ss) != 1:
+                continue
+            e, ctx = ss[0]
+            guards = [(c.cond if br else NOT(c.cond)) for c, br in ctx if c.kind == 'if']
+            if any(g in (CMP('Eq', idx, C(0)), CMP('Eq', C(0), idx)) for g in guards):
+                vals[('carried', var, loop.lid)] = e.value
+        if not vals:
+            return
+        from ..absint import map_effects
+        for _ in range(4):
+            self.effs = map_effects(self.effs, lambda t: vals.get(t))
+        self._find_sections()
+
+    def section_of(self, ctx):
+        for c, _ in ctx:
+            if c.kind == 'for' and c.binder in self.sections:
+                return self.sections[c.binder]
+        return None
+
+    def events(self):
+        """(effect, context) of everything executed per line of some section"""
+        if self._events is None:
+            self._events = [(e, ctx) for e, ctx in iter_effects(self.effs) if self.section_of(ctx) is not None]
+        return self._events
+
+    def all_events(self):
+        return [(e, ctx) for e, ctx in iter_effects(self.effs) if not any(c.kind == 'call' and getattr(c.target, 'name', '') == '__init__' for c, _ in ctx)]
+
+    def nice(self, t):
+        s = show(t)
+        for sec in self.sections.values():
+            s = s.replace(show(sec.binder), 'line' if sec.kind == 'index' else 'fields')
+        return s
 
     # -- polynomials over idx, ns, np, nl -----------------------------------------------------------------
     def poly(self, t):
-        if t == self.idx:
-            return patom('idx')
+        if t[0] == 'indexof' and t[1] in self.sections:
+            sec = self.sections[t[1]]
+            return patom('idx') if sec.kind == 'index' else psub(patom('idx'), self.poly(sec.lo))
         if t[0] == 'const' and isinstance(t[1], int) and not isinstance(t[1], bool):
             return pconst(t[1])
         if t[0] == 'attr' and t[2] in COUNT and t[1] == self.model:
@@ -64,6 +172,18 @@ class Reader:
             return pneg(self.poly(t[2]))
         if t[0] == 'bin' and t[1] == 'Mult' and (is_num(t[2]) or is_num(t[3])):
             return pmul(self.poly(t[2]), self.poly(t[3]))
+        if t[0] == 'ite' and self.file_nonempty(t[1]):
+            return self.poly(t[2] if t[1][0] != 'not' else t[3])          # a file of the grammar has its header line
+        k, _ = self.header_field(t)
+        if k in (0, 1, 2):
+            # a count read straight from the header (R2 checks which attribute each field feeds)
+            return patom(('ns', 'np', 'nl')[k])
+        if t[0] == 'call' and t[1] in (S('max'), S('min')) and len(t[2]) == 2 and not (len(t) > 3 and t[3]):
+            a, b = self.poly(t[2][0]), self.poly(t[2][1])          # a clamp that never binds (counts are >= 0)
+            if dominates(a, b)[0]:
+                return a if t[1] == S('max') else b
+            if dominates(b, a)[0]:
+                return b if t[1] == S('max') else a
         raise Unknown('not linear in the line index and the header counts: ' + show(t)[:80])
 
     def bound(self, g):
@@ -72,7 +192,7 @@ class Reader:
         neg = False
         while g[0] == 'not':
             neg, g = not neg, g[1]
-        if g[0] != 'cmp' or not contains(g, lambda x: x == self.idx):
+        if g[0] != 'cmp' or not contains(g, lambda x: x[0] == 'indexof' and x[1] in self.sections):
             return None
         op = g[1]
         if op not in ('Lt', 'LtE', 'Gt', 'GtE', 'Eq', 'NotEq'):
@@ -101,17 +221,42 @@ class Reader:
             raise Unknown('index != ' + pshow(e))
         raise Unknown('index test ' + show(g))
 
+    def file_nonempty(self, g):
+        """truthiness of the list of lines / rows: a file of the grammar has a header line"""
+        while g[0] == 'not':
+            g = g[1]
+        if g[0] == 'cmp' and g[1] in ('Gt', 'NotEq', 'GtE') and g[2][0] == 'call' and g[2][1] == S('len') and g[3] in (C(0), C(1)):
+            g = g[2][2][0]
+        return is_lines(g) or is_rows(g)
+
     def interval(self, ctx):
+        sec = self.section_of(ctx)
         lo, hi = pconst(0), None
+        if sec is not None and sec.kind == 'slice':
+            lo = self.poly(sec.lo) if sec.lo != NONE else pconst(0)
+            hi = psub(self.poly(sec.hi), pconst(1)) if sec.hi != NONE else None
         other = []
+        disj_seen = []
         for c, br in ctx:
             if c.kind != 'if':
                 continue
             g = c.cond if br else NOT(c.cond)
-            for part in (g[2] if (g[0] == 'bool' and g[1] == 'and') else [g]):
+            g = boolify(simp(g))
+            parts = list(g[2]) if (g[0] == 'bool' and g[1] == 'and') else [g]
+            # not (A and B) with A, B lower bounds / complements: rewrite  not(not a and not b)  ->  a or b  handled below
+            for part in parts:
+                if part[0] == 'not' and part[1][0] == 'bool' and part[1][1] == 'and':
+                    # a or b over index tests: a union of half-lines; keep it only when one side is implied by the rest
+                    disj_seen.append([simp(NOT(x)) for x in part[1][2]])
+                    continue
+                if part[0] == 'bool' and part[1] == 'or':
+                    disj_seen.append(list(part[2]))
+                    continue
+                if part[0] == 'call' and part[1] == S('__until_break__'):
+                    part = part[2][0]
                 b = self.bound(part)
                 if b is None:
-                    if part != TRUE:
+                    if part != TRUE and not self.file_nonempty(part):
                         other.append(part)
                     continue
                 k, e = b
@@ -127,52 +272,116 @@ class Reader:
                         hi = e
                     elif not dominates(e, hi)[0]:
                         raise Unknown('incomparable upper bounds')
+        for alts in disj_seen:
+            # (i < a) or (i < b): an upper bound max(a, b);  every alternative must be an index bound of the same side
+            bs = [self.bound(x) for x in alts]
+            if any(b is None for b in bs) or len({b[0] for b in bs}) != 1 or bs[0][0] == 'eq':
+                other.append(OR(*alts))
+                continue
+            side = bs[0][0]
+            best = bs[0][1]
+            for _, e in bs[1:]:
+                if side == 'hi':
+                    if dominates(e, best)[0]: best = e
+                    elif not dominates(best, e)[0]: raise Unknown('incomparable upper bounds')
+                else:
+                    if dominates(best, e)[0]: best = e
+                    elif not dominates(e, best)[0]: raise Unknown('incomparable lower bounds')
+            if side == 'hi':
+                if hi is None or dominates(hi, best)[0]:
+                    hi = best
+            else:
+                if dominates(best, lo)[0]:
+                    lo = best
         return lo, hi, other
 
     def appends(self, attr):
-        """append effects into model.<attr> inside the line loop (with context)."""
-        out = []
-        for e, ctx in iter_effects(self.loop.body):
-            if e.kind == 'append' and e.target == A(self.model, attr):
-                out.append((e, ctx))
-        return out
+        """append effects into model.<attr> inside a line section (with context)."""
+        return [(e, ctx) for e, ctx in self.events() if e.kind == 'append' and e.target == A(self.model, attr)]
 
     def local_appends(self, name):
+        return [(e, ctx) for e, ctx in self.events() if e.kind == 'acc' and e.var == name and e.op == 'append']
+
+    def header_stores(self, attr):
+        """[(effect, field number, (lo, hi, other))] for the stores of a header count"""
         out = []
-        for e, ctx in iter_effects(self.loop.body):
-            if e.kind == 'acc' and e.var == name and e.op == 'append':
-                out.append((e, ctx))
+        for e, ctx in self.all_events():
+            if e.kind == 'store' and e.target == A(self.model, attr):
+                k, at0 = self.header_field(e.value)
+                if at0:
+                    iv = (pconst(0), pconst(0), [g for g in self._other_guards(ctx)])
+                else:
+                    iv = self.interval(ctx)
+                out.append((e, k, iv))
         return out
 
+    def _other_guards(self, ctx):
+        out = []
+        for c, br in ctx:
+            if c.kind == 'if':
+                g = c.cond if br else NOT(c.cond)
+                for part in (list(g[2]) if (g[0] == 'bool' and g[1] == 'and') else [g]):
+                    if part != TRUE and not self.file_nonempty(part):
+                        out.append(part)
+        return out
+
+    def fields_line(self, t):
+        """is t the token list of the current line of some section?"""
+        if t[0] == 'bvar' and t in self.sections and self.sections[t].kind == 'slice':
+            return True
+        for b, sec in self.sections.items():
+            if sec.kind == 'index' and tokens_of(t, b):
+                return True
+        return False
+
     def field(self, v):
-        """int(LS[k]) -> k  where LS = line.replace(':', <'' or ' '>).split()"""
+        """int(LS[k]) -> k  where LS = the token list of the current line"""
         if v[0] == 'call' and v[1] == S('int') and len(v[2]) == 1:
             x = v[2][0]
-            if x[0] == 'idx' and x[2][0] == 'const' and self.is_fields(x[1]):
+            if x[0] == 'idx' and x[2][0] == 'const' and self.fields_line(x[1]):
                 return x[2][1]
         return None
 
     def is_fields(self, t):
-        if t[0] == 'call' and t[1][0] == 'attr' and t[1][2] == 'split' and not t[2]:
-            b = t[1][1]
-            if b[0] == 'call' and b[1][0] == 'attr' and b[1][2] == 'replace' and b[1][1] == self.line and len(b[2]) == 2 \
-                    and b[2][0] == C(':') and b[2][1] in (C(''), C(' ')):
-                return True
-        return False
+        return self.fields_line(t)
 
     def header_field(self, v):
+        """int(<header line>.split()[k]) -> (k, read from lines[0] directly?)"""
         if v[0] == 'call' and v[1] == S('int') and len(v[2]) == 1:
             x = v[2][0]
             if x[0] == 'idx' and x[2][0] == 'const':
                 b = x[1]
-                if b[0] == 'call' and b[1][0] == 'attr' and b[1][2] == 'split' and (b[1][1] == self.line or self.is_fields(b)):
-                    return x[2][1]
-        return None
+                if b[0] == 'ite' and self.file_nonempty(b[1]) and b[3] in (('list', ()), ('tuple', ())):
+                    b = b[2]
+                if b[0] == 'call' and b[1][0] == 'attr' and b[1][2] == 'split':
+                    src = b[1][1]
+                    if (src[0] == 'bvar' and src in self.sections) or self.fields_line(b):
+                        return x[2][1], False
+                    if src[0] == 'idx' and src[2] == C(0) and is_lines(src[1]):
+                        return x[2][1], True
+                if b[0] == 'idx' and b[2] == C(0) and is_rows(b[1]):
+                    return x[2][1], True
+        return None, False
 
     def slice_from(self, t):
-        if t[0] == 'slice' and self.is_fields(t[1]) and t[2][0] == 'const' and t[3] == NONE:
+        if t[0] == 'slice' and self.fields_line(t[1]) and t[2][0] == 'const' and t[3] == NONE:
             return t[2][1]
         return None
+
+    def tokeniser_calls(self):
+        """calls of the preference-list tokeniser per line: ([student-side], [second-side]) by the section they run on"""
+        reader = find_reader(self.repo)
+        st, sec = [], []
+        for e, ctx in self.events():
+            if e.kind == 'call' and e.target is reader:
+                outer = [c.target.name for c, _ in ctx if c.kind == 'call']
+                try:
+                    lo, hi, _ = self.interval(ctx)
+                    first = lo == pconst(1) and hi == patom('ns')
+                except Unknown:
+                    first = '_create_pairs_row' in outer
+                (st if first else sec).append((e, ctx))
+        return st, sec
 
 
 def own_id_ok(R, term, want, wl, wh, at_effect):
@@ -186,7 +395,7 @@ def own_id_ok(R, term, want, wl, wh, at_effect):
         aps = R.appends(term[2][0][2])
         if len(aps) == 1:
             lo2, hi2, oth2 = R.interval(aps[0][1])
-            order = {id(ee): i for i, (ee, _) in enumerate(iter_effects(R.loop.body))}
+            order = {id(ee): i for i, (ee, _) in enumerate(R.events())}
             return lo2 == wl and hi2 == wh and not oth2 and order[id(aps[0][0])] < order.get(id(at_effect), 10 ** 9)
     return False
 
@@ -194,7 +403,7 @@ def own_id_ok(R, term, want, wl, wh, at_effect):
 def rank_keys(R):
     """(key tuple term, effect, ctx) for every place where second-side ranks are recorded per (lecturer id, student id)."""
     out = []
-    for e, ctx in iter_effects(R.loop.body):
+    for e, ctx in R.events():
         if e.kind == 'acc' and e.op == 'setidx' and e.index is not None and e.index[0] == 'tuple' and len(e.index[1]) == 2:
             out.append((e.index, e, ctx))
             continue
@@ -310,15 +519,13 @@ def check_reader(rep, R):
     ns, np_, nl = patom('ns'), patom('np'), patom('nl')
     # ---- header ----
     for attr, want in (('num_students', 0), ('num_projects', 1), ('num_lecturers', 1 if R.na == 2 else 2)):
-        st = [(e, c) for e, c in iter_effects(R.loop.body) if e.kind == 'store' and e.target == A(R.model, attr)]
+        st = R.header_stores(attr)
         if len(st) != 1:
             rep.fail('C10.R2', w, '%s is read from the header exactly once %s' % (attr, cfg), got='%d stores' % len(st), construct='%s header stores %s' % (attr, cfg))
             continue
-        e, ctx = st[0]
-        k = R.header_field(e.value)
+        e, k, (lo, hi, other) = st[0]
         rep.check(k == want, 'C10.R2', w, '%s = header field %d %s' % (attr, want, cfg), got=show(e.value), want='int(first_line[%d])' % want,
                   construct='%s <- %s' % (attr, show(e.value)), loc=e.loc)
-        lo, hi, other = R.interval(ctx)
         rep.check(lo == {} and hi == {} and not other, 'C10.R2', w, 'the header is line 0 %s' % cfg, got='%s..%s' % (pshow(lo), pshow(hi) if hi is not None else 'inf'),
                   want='0..0', construct='header line interval', loc=e.loc)
     # ---- sections ----
@@ -351,7 +558,7 @@ def check_reader(rep, R):
             continue
         e, ctx = aps[0]
         got = R.field(e.value)
-        rep.check(got == k, 'C10.R3', w, '%s = field %d of its line %s' % (attr, k, cfg), got=show(e.value).replace(show(R.line), 'line'), want='int(fields[%d])' % k,
+        rep.check(got == k, 'C10.R3', w, '%s = field %d of its line %s' % (attr, k, cfg), got=R.nice(e.value), want='int(fields[%d])' % k,
                   construct='%s <- field %s %s' % (attr, got, cfg), loc=e.loc)
         lo, hi, other = R.interval(ctx)
         wl, wh = (pl, ph) if attr.startswith('proj') else (ll, lh)
@@ -364,36 +571,31 @@ def check_reader(rep, R):
     else:
         e, ctx = pls[0]
         if R.na == 3:
-            rep.check(R.field(e.value) == 3, 'C10.R3', w, 'supervising lecturer = field 3 of the project line %s' % cfg, got=show(e.value).replace(show(R.line), 'line'),
-                      want='int(fields[3])', construct='project lecturer <- %s' % show(e.value).replace(show(R.line), 'line'), loc=e.loc)
+            rep.check(R.field(e.value) == 3, 'C10.R3', w, 'supervising lecturer = field 3 of the project line %s' % cfg, got=show(e.value),
+                      want='int(fields[3])', construct='project lecturer <- %s' % show(e.value), loc=e.loc)
         else:
             okv = own_id_ok(R, e.value, psub(patom('idx'), ns), pl, ph, e)
-            rep.check(okv, 'C10.R5', w, 'hospital j is offered by its own lecturer j (j = line index - n_s) %s' % cfg, got=show(e.value).replace(show(R.line), 'line'),
-                      want='index - num_students', construct='embedding lecturer id ' + show(e.value).replace(show(R.line), 'line'), loc=e.loc)
+            rep.check(okv, 'C10.R5', w, 'hospital j is offered by its own lecturer j (j = line index - n_s) %s' % cfg, got=show(e.value),
+                      want='index - num_students', construct='embedding lecturer id ' + show(e.value), loc=e.loc)
     # ---- preference-list slices and ids ----
-    reader = find_reader(R.repo)
-    calls = [(e, c) for e, c in iter_effects(R.loop.body) if e.kind == 'call' and e.target is reader]
     want_slices = {'student': 1, 'second': 3 if R.na == 2 else 4}
-    st_calls, sec_calls = [], []
-    for e, ctx in calls:
-        outer = [c.target.name for c, _ in ctx if c.kind == 'call']
-        (st_calls if '_create_pairs_row' in outer else sec_calls).append((e, ctx))
+    st_calls, sec_calls = R.tokeniser_calls()
     if len(st_calls) != 1:
         rep.fail('C10.R3', w, 'student preference tokens are tokenised once per student line %s' % cfg, got='%d sites' % len(st_calls), construct='student tokeniser sites')
     else:
         e, ctx = st_calls[0]
         k = R.slice_from(e.args[0])
-        rep.check(k == 1, 'C10.R3', w, 'a student list = fields[1:] of its line %s' % cfg, got=show(e.args[0]).replace(show(R.line), 'line'), want='fields[1:]',
+        rep.check(k == 1, 'C10.R3', w, 'a student list = fields[1:] of its line %s' % cfg, got=show(e.args[0]), want='fields[1:]',
                   construct='student list slice %s' % k, loc=e.loc)
     # student id
-    pid = [(e, c) for e, c in iter_effects(R.loop.body) if e.kind == 'store' and e.target[0] == 'attr' and e.target[2] == 'studentID' and e.target[1][0] == 'obj']
+    pid = [(e, c) for e, c in R.events() if e.kind == 'store' and e.target[0] == 'attr' and e.target[2] == 'studentID' and e.target[1][0] == 'obj']
     if pid:
         e, ctx = pid[0]
         try:
             okv = R.poly(e.value) == patom('idx')
         except Unknown:
             okv = False
-        rep.check(okv, 'C10.R2', w, 'student id = line index %s' % cfg, got=show(e.value).replace(show(R.line), 'line'), want='index', construct='student id ' + show(e.value).replace(show(R.line), 'line'), loc=e.loc)
+        rep.check(okv, 'C10.R2', w, 'student id = line index %s' % cfg, got=show(e.value), want='index', construct='student id ' + show(e.value), loc=e.loc)
     else:
         rep.fail('C10.R2', w, 'a Pair is built for every entry of a student line %s' % cfg, got='no Pair construction', construct='no Pair construction')
     # second side
@@ -404,7 +606,7 @@ def check_reader(rep, R):
             e, ctx = sec_calls[0]
             k = R.slice_from(e.args[0])
             rep.check(k == want_slices['second'], 'C10.R3', w, 'a second-side list = fields[%d:] of its line %s' % (want_slices['second'], cfg),
-                      got=show(e.args[0]).replace(show(R.line), 'line'), want='fields[%d:]' % want_slices['second'], construct='second-side slice %s %s' % (k, cfg), loc=e.loc)
+                      got=show(e.args[0]), want='fields[%d:]' % want_slices['second'], construct='second-side slice %s %s' % (k, cfg), loc=e.loc)
             lo, hi, other = R.interval(ctx)
             wl, wh = (ll, lh)
             rep.check(lo == wl and hi == wh and not other, 'C10.R3', w, 'second-side lists are read on the lecturer/hospital section %s' % cfg,
@@ -416,8 +618,8 @@ def check_reader(rep, R):
                 lid = key[1][0]
                 want = psub(patom('idx'), ns) if R.na == 2 else psub(patom('idx'), padd(ns, np_))
                 okk = own_id_ok(R, lid, want, wl, wh, x)
-                rep.check(okk, 'C10.R2', w, 'second-side ranks are keyed by the id of their own line (index - (start - 1)) %s' % cfg, got=show(lid).replace(show(R.line), 'line'),
-                          want=pshow(want), construct='second-side id %s %s' % (show(lid).replace(show(R.line), 'line'), cfg), loc=x.loc)
+                rep.check(okk, 'C10.R2', w, 'second-side ranks are keyed by the id of their own line (index - (start - 1)) %s' % cfg, got=show(lid),
+                          want=pshow(want), construct='second-side id %s %s' % (show(lid), cfg), loc=x.loc)
             else:
                 rep.fail('C10.R4', w, 'second-side ranks are recorded per (lecturer, student) %s' % cfg, got='no keyed store', construct='rank dictionary store %s' % cfg)
     # ---- R4: rank_lecturer only under twopl, for every pair ----
@@ -438,6 +640,13 @@ def check_reader(rep, R):
                       got='guards=%s loops=%s' % ([show(c.cond)[:60] for c in ifs], [show(c.binder[3])[:40] for c in fors]), construct='rank_lecturer coverage %s' % cfg, loc=e.loc)
             v = idnorm(R.repo, e.value)
             okk = v[0] == 'idx' and v[2] == ('tuple', (A(pair, 'lecturerID'), A(pair, 'studentID')))
+            if not okk and v[0] == 'idx' and v[2][0] == 'tuple' and len(v[2][1]) == 2 and v[2][1][1] == A(pair, 'studentID'):
+                # the lecturer id read back as the value stored for this pair (R6 decides that value)
+                from ..canon import replace
+                for e2, _ in iter_effects(R.effs):
+                    if e2.kind == 'store' and e2.target[0] == 'attr' and e2.target[2] == 'lecturerID' and e2.target[1][0] == 'bvar' \
+                            and replace(idnorm(R.repo, e2.value), e2.target[1], pair) == v[2][1][0]:
+                        okk = True
             rep.check(okk, 'C10.R4', w, 'the rank looked up is that of (own lecturer, own student) %s' % cfg, got=show(v)[-80:], want='ranks[(pair.lecturerID, pair.studentID)]',
                       construct='rank key ' + (show(v[2]).replace(show(pair), 'pair') if v[0] == 'idx' else show(v)[:60]), loc=e.loc)
     # ---- R6: lecturer of a pair ----
@@ -560,7 +769,7 @@ def check_no_rejection(rep, R, rule='C10.R7'):
                     empties.append(p[2][2][0])
                 for x in empties:
                     if R.slice_from(x) is not None or contains(x, lambda y: y[0] == 'slice' and R.is_fields(y[1])):
-                        rep.fail(rule, e.where, 'a line whose preference list is empty is accepted %s' % cfg, got='raises %s when %s' % (show(e.value)[:60], show(part).replace(show(R.line), 'line')[:80]),
+                        rep.fail(rule, e.where, 'a line whose preference list is empty is accepted %s' % cfg, got='raises %s when %s' % (show(e.value)[:60], show(part)[:80]),
                                  want='empty lists are legal (nobody ranks that agent)', construct='reader raises on an empty preference list', loc=e.loc)
                         return
     rep.ok(rule, R.f.where, 'no raise guarded by an empty preference list %s' % cfg, got='%d raise statements in the reader slice' % n)
